@@ -209,8 +209,10 @@ def run_word(case):
     wd = os.path.join(chk.scratch, "w-%d" % os.getpid())
     try:
         shutil.rmtree(wd, ignore_errors=True)
-        tracegen.write_trace(wd, DESC, hist, require=histgen.require_of(enabled))
-        r = emu.emu(build, wd, ["-l"] if case["lint"] else [], timeout=60)
+        bd = bool(case.get("breakdown"))
+        tracegen.write_trace(wd, DESC, hist, require=histgen.require_of(enabled),
+                             extra_meta={"nosv": {"can_breakdown": True}} if (bd and mc == "V") else None)
+        r = emu.emu(build, wd, (["-l"] if case["lint"] else []) + (["-b"] if bd else []), timeout=60)
         if r.timeout:
             res["viol"] = ("inconclusive", "timeout"); return res
         if r.sig or r.rc not in (0, 1):
@@ -277,6 +279,11 @@ def main(argv):
             c["mc"] = mc
             c["thread"] = n % 3
             cases.append(c)
+            # the lint verdict must not depend on other options: every second lint case
+            # of the two models that have a breakdown view also runs with -b
+            if mc in "V6" and c["kind"] in ("cut-lint", "cut-nolint", "nested", "pair") and n % 2 == 0:
+                c2 = dict(c); c2["breakdown"] = True; c2["kind"] = c["kind"] + "+b"
+                cases.append(c2)
     # ovni flush channel (single, set/unset): OF[ OF] pairs, double OF[, OF] alone
     for w, kind in ((["OF[", "OF]"], "pair"), (["OF[", "OF[", "OF]"], "fault-double-enter"), (["OF]"], "fault-unmatched-leave"),
                     (["OF[", "OF]", "OF["], "cut-nolint")):
@@ -289,7 +296,7 @@ def main(argv):
         else:
             tcases = []
             cases = [{"mc": rp["mc"], "kind": rp["kind"], "word": rp["word"], "lint": rp["lint"], "thread": rp.get("thread", 0),
-                      "free_cpu": rp.get("free_cpu", False)}]
+                      "free_cpu": rp.get("free_cpu", False), "breakdown": rp.get("breakdown", False)}]
     n = acc = rej = 0
     kinds = {}
     seen = set()
@@ -307,7 +314,7 @@ def main(argv):
             rej += 1
         if v:
             chk.report(v[0], v[1], {"mc": c["mc"], "kind": c["kind"], "word": c["word"][:600], "lint": c["lint"],
-                                    "thread": c.get("thread", 0), "free_cpu": c.get("free_cpu", False),
+                                    "thread": c.get("thread", 0), "free_cpu": c.get("free_cpu", False), "breakdown": c.get("breakdown", False),
                                     "observation": v[2] if len(v) > 2 else {}})
     tn = tev = 0
     tmcvs = set()
